@@ -198,6 +198,9 @@ func (s *Sim) bootReceiver(root string, inc int) *RecvNode {
 		}
 	}
 	n.pending = snapshotRecoverPending(n.stageDir())
+	if len(n.pending.paths) > 0 {
+		s.stat("probe:recovery-has-files-to-validate")
+	}
 	stshttp.DefaultServer = nil
 	sa := &serverApp{conf: conf.Server}
 	if err = sa.init(); err != nil {
